@@ -83,6 +83,25 @@ pub fn run(ctx: &Ctx) {
         ctx.eval(format!("{}:{build:?}:{}", case.class, match &r.status { Status::Exit(c) => format!("exit{c}"), o => format!("{o:?}") }));
         if r.crashed() { ctx.panic_violation(format!("{P}:cli:{}:{}", case.class, r.crash_kind()), format!("{}: {}", trunc(&full.shown(), 400), r.describe()), full.replay("cli-union", i, build)) }
     });
+    // the process ENVIRONMENT as input: variables whose value or name is not text (Latin-1 names of people, paths in a legacy
+    // encoding), next to every locale setting - in the tool's own option variables and in variables it has no business with.
+    // Whatever reads the environment wholesale (`std::env::vars()`), or reads one variable expecting text, meets these
+    let values: [(&str, &[u8]); 7] = [("latin1", b"Andr\xe9"), ("lone-continuation", b"\x80abc"), ("truncated-sequence", b"abc\xe2\x82"), ("overlong", b"\xc0\xaf"), ("surrogate", b"\xed\xa0\x80"), ("utf8", "Andr\u{e9}".as_bytes()), ("empty", b"")];
+    let names: [&[u8]; 9] = [b"REALNAME", b"LC_PAPER", b"LESSCHARSET", b"N\xe4me", b"MNEMONIC", b"PASSWORD", b"HD_PATH", b"ACCOUNT_INDEX", b"HDWALLET_LANGUAGE"];
+    let locales: [&[(&str, &str)]; 5] = [&[], &[("LANG", "C")], &[("LANG", "en_US.UTF-8")], &[("LC_ALL", "de_DE.ISO-8859-1")], &[("LANG", ""), ("LC_ALL", "")]];
+    let cmds: Vec<Vec<&str>> = vec![vec!["address", "--mnemonic", GANACHE], vec!["address"], vec!["hex", "encode", "-"], vec!["hash", "message", "-"], vec!["new", "-n", "12"], vec!["--help"], vec!["export", "--mnemonic", GANACHE, "--account-index", "1"], vec!["new", "--help"]];
+    let total = (values.len() * names.len() * locales.len() * cmds.len()) as u64;
+    ctx.sweep("environment-that-is-not-text", "8 commands x 9 variable names (4 foreign ones incl. a name that is not UTF-8, the tool's four option variables, a look-alike) x 7 values (Latin-1, lone continuation byte, truncated sequence, overlong, surrogate, UTF-8, empty) x 5 locale settings (none, C, UTF-8, Latin-1, empty): never a panic, abort or hang", total, |i| {
+        let mut x = i as usize; let mut take = |k: usize| { let r = x % k; x /= k; r };
+        let (vn, val) = values[take(values.len())]; let name = names[take(names.len())]; let loc = locales[take(locales.len())]; let argv = &cmds[take(cmds.len())];
+        let mut cmd = Cmd::new(argv).stdin(b"abc").env_raw(name, val); for (k, v) in loc { cmd = cmd.env(k, v); }
+        let r = cmd.run(Build::Release); let own = [&b"MNEMONIC"[..], b"PASSWORD", b"HD_PATH", b"ACCOUNT_INDEX"].contains(&name);
+        let shape = format!("env:{}={vn},locale={},{}", if own { "option-variable" } else { "foreign-variable" }, if loc.is_empty() { "none" } else { "set" }, argv[0]);
+        let replay = serde_json::json!({"sweep": "environment-that-is-not-text", "index": i, "entry": "CLI", "command": trunc(&cmd.shown(), 300), "variable_name_hex": refmodel::eth::hex(name), "variable_value_hex": refmodel::eth::hex(val), "locale": format!("{loc:?}")});
+        ctx.sample("environment-that-is-not-text", || replay.clone());
+        ctx.eval(format!("{shape}:{}", match &r.status { Status::Exit(0) => "exit0".to_string(), Status::Exit(101) => "panic".into(), Status::Exit(_) => "refused".into(), o => format!("{o:?}") }));
+        if r.crashed() { ctx.panic_violation(format!("{P}:cli:environment-not-text:{}:{}", if own { "option-variable" } else { "foreign-variable" }, r.crash_kind()), format!("{} with variable {} = {:?}: {}", trunc(&cmd.shown(), 200), String::from_utf8_lossy(name), String::from_utf8_lossy(val), r.describe()), replay) }
+    });
     ctx.set_extra("slowest_cases_ms", serde_json::json!(slow.lock().unwrap().clone()));
     ctx.guard_check("success and refusal both observed", ctx.classes_matching(|c| c.ends_with(":exit0")) > 0 && ctx.classes_matching(|c| !c.ends_with(":exit0")) > 0, "exit 0 and a non-zero exit status both occurred");
 }
